@@ -2634,6 +2634,10 @@ class InFramesetPhase(Phase):
 
     def processCharacters(self, token):
         self.parser.parseError("unexpected-char-in-frameset")
+        # the white space inside a run of characters is not ignored
+        data = "".join([c for c in token["data"] if c in spaceCharacters])
+        if data:
+            self.tree.insertText(data)
 
     def startTagFrameset(self, token):
         self.tree.insertElement(token)
@@ -2689,6 +2693,10 @@ class AfterFramesetPhase(Phase):
 
     def processCharacters(self, token):
         self.parser.parseError("unexpected-char-after-frameset")
+        # the white space inside a run of characters is not ignored
+        data = "".join([c for c in token["data"] if c in spaceCharacters])
+        if data:
+            self.tree.insertText(data)
 
     def startTagNoframes(self, token):
         return self.parser.phases["inHead"].processStartTag(token)
@@ -2768,6 +2776,11 @@ class AfterAfterFramesetPhase(Phase):
 
     def processCharacters(self, token):
         self.parser.parseError("expected-eof-but-got-char")
+        # the white space inside a run of characters is not ignored
+        data = "".join([c for c in token["data"] if c in spaceCharacters])
+        if data:
+            self.parser.phases["inBody"].processSpaceCharacters(
+                {"type": tokenTypes["SpaceCharacters"], "data": data})
 
     def startTagHtml(self, token):
         return self.parser.phases["inBody"].processStartTag(token)
